@@ -149,7 +149,77 @@ Fixpoint nodupb (l : list string) : bool := match l with [] => true | x :: r => 
 Definition ascii_chk (L : list ads) : bool :=
   forallb (fun a => str_ascii7 (a_name a) && forallb str_ascii7 (a_alias a)) L.
 
-(* the computational facts, each checked once by the VM; everywhere else reg_db is used as an opaque constant *)
+(* generic lemmas: the registry is a VARIABLE here, so that no proof term ever needs the 176-entry list unfolded *)
+Section Lift.
+Variable L : list ads.
+Hypothesis Hnorm : forall a, In a L -> exists n al b, a = new_ads n al b.
+Lemma gen_alias_lower a al : In a L -> In al (a_alias a) -> lower al = al.
+Proof. intros Ha Hal. destruct (Hnorm a Ha) as (n & x & b & ->). now apply norm_alias_lower in Hal. Qed.
+Lemma gen_all_ascii : ascii_chk L = true ->
+  forall a, In a L -> str_ascii7 (a_name a) = true /\ forall al, In al (a_alias a) -> str_ascii7 al = true.
+Proof.
+  intros H a Ha. unfold ascii_chk in H. rewrite forallb_forall in H. specialize (H a Ha).
+  apply andb_true_iff in H. destruct H as [H1 H2]. split; [assumption|]. now rewrite forallb_forall in H2.
+Qed.
+Lemma gen_alias_resolves : resolves_chk L = true -> forall a al s, In a L -> In al (a_alias a) -> al <> the_collision ->
+  lower s = al -> find L s = Some a /\ set_adsorbate L s = a.
+Proof.
+  intros H a al s Ha Hal Hne Hs. unfold resolves_chk in H. rewrite forallb_forall in H. specialize (H a Ha).
+  rewrite forallb_forall in H. specialize (H al Hal). apply orb_true_iff in H. destruct H as [H|H].
+  - apply String.eqb_eq in H. contradiction.
+  - assert (E : find L s = Some a).
+    { rewrite find_lower, Hs. destruct (find L al) as [b|]; [|discriminate]. now rewrite (ads_eqb_eq _ _ H). }
+    split; [assumption|]. unfold set_adsorbate. now rewrite E.
+Qed.
+Lemma gen_name_resolves : resolves_chk L = true ->
+  forallb (fun a => negb (String.eqb (lower (a_name a)) the_collision) || String.eqb (a_name a) the_collision) L = true ->
+  forall a s, In a L -> a_name a <> the_collision -> lower s = lower (a_name a) -> find L s = Some a.
+Proof.
+  intros H Hc a s Ha Hne Hs.
+  assert (Hin : In (lower (a_name a)) (a_alias a)).
+  { destruct (Hnorm a Ha) as (n & x & b & ->). simpl. apply norm_alias_has_name. }
+  assert (Hl : lower (a_name a) <> the_collision).
+  { rewrite forallb_forall in Hc. specialize (Hc a Ha). apply orb_true_iff in Hc. destruct Hc as [Hc|Hc].
+    - apply negb_true_iff, String.eqb_neq in Hc. assumption.
+    - apply String.eqb_eq in Hc. contradiction. }
+  exact (proj1 (gen_alias_resolves H a _ s Ha Hin Hl Hs)).
+Qed.
+Lemma gen_alias_unique : unique_chk L = true -> forall a b al, In a L -> In b L -> In al (a_alias a) -> In al (a_alias b) ->
+  al <> the_collision -> a = b.
+Proof.
+  intros H a b al Ha Hb Hal Hbl Hne. unfold unique_chk in H. rewrite forallb_forall in H. specialize (H a Ha).
+  rewrite forallb_forall in H. specialize (H b Hb). rewrite forallb_forall in H. specialize (H al Hal).
+  rewrite !orb_true_iff in H. destruct H as [[H|H]|H].
+  - apply String.eqb_eq in H. contradiction.
+  - apply negb_true_iff in H. apply smem_In in Hbl. congruence.
+  - now apply ads_eqb_eq.
+Qed.
+Definition refuted_chk (wa wb : ads) : bool :=
+  existsb (ads_eqb wa) L && existsb (ads_eqb wb) L
+  && match find L (a_name wb) with Some x => ads_eqb x wa | None => false end
+  && ads_eqb (set_adsorbate L "Cyclopentane") wa.
+Lemma existsb_ads_In w : existsb (ads_eqb w) L = true -> In w L.
+Proof. intro H. apply existsb_exists in H. destruct H as (x & Hx & E). now rewrite (ads_eqb_eq _ _ E). Qed.
+Lemma gen_refuted wa wb : refuted_chk wa wb = true ->
+  In wa L /\ In wb L /\ find L (a_name wb) = Some wa /\ set_adsorbate L "Cyclopentane" = wa.
+Proof.
+  unfold refuted_chk. rewrite !andb_true_iff. intros [[[H1 H2] H3] H4].
+  split; [now apply existsb_ads_In|]. split; [now apply existsb_ads_In|].
+  split; [|now apply ads_eqb_eq].
+  destruct (find L (a_name wb)) as [x|]; [|discriminate]. now rewrite (ads_eqb_eq _ _ H3).
+Qed.
+End Lift.
+Lemma nodupb_NoDup l : nodupb l = true -> NoDup l.
+Proof.
+  induction l; simpl; intro H; constructor.
+  - apply andb_true_iff in H. destruct H as [H _]. intro Hin. apply smem_In in Hin. rewrite Hin in H. discriminate.
+  - apply IHl. now apply andb_true_iff in H.
+Qed.
+Lemma map_new_ads_norm (D : list (string * list string * bool)) a :
+  In a (map (fun '(n, rows, b) => new_ads n (db_group rows) b) D) -> exists n al b, a = new_ads n al b.
+Proof. intros Ha. apply in_map_iff in Ha. destruct Ha as ([[n rows] b] & <- & _). now exists n, (db_group rows), b. Qed.
+
+(* the computational facts about THIS tree, each checked once by the VM *)
 Lemma reg_counts : length reg_db = 176%nat /\ length reg_json = 176%nat
                    /\ length (concat (map a_alias reg_db)) = 818%nat
                    /\ length (filter a_backend reg_db) = 81%nat.
@@ -163,86 +233,38 @@ Lemma nodupb_names_true : nodupb (map a_name reg_db) = true. Proof. vm_compute. 
 Lemma name_lower_chk_true :
   forallb (fun a => negb (String.eqb (lower (a_name a)) the_collision) || String.eqb (a_name a) the_collision) reg_db = true.
 Proof. vm_compute. reflexivity. Qed.
-
-Lemma nodupb_NoDup l : nodupb l = true -> NoDup l.
-Proof.
-  induction l; simpl; intro H; constructor.
-  - apply andb_true_iff in H. destruct H as [H _]. intro Hin. apply smem_In in Hin. rewrite Hin in H. discriminate.
-  - apply IHl. now apply andb_true_iff in H.
-Qed.
-Lemma names_distinct_lem : NoDup (map a_name reg_db).
-Proof. apply nodupb_NoDup, nodupb_names_true. Qed.
-Lemma all_ascii_lem : forall a, In a reg_db -> str_ascii7 (a_name a) = true /\ forall al, In al (a_alias a) -> str_ascii7 al = true.
-Proof.
-  pose proof ascii_chk_true as H.
-  intros a Ha. unfold ascii_chk in H. rewrite forallb_forall in H. specialize (H a Ha).
-  apply andb_true_iff in H. destruct H as [H1 H2]. split; [assumption|]. now rewrite forallb_forall in H2.
-Qed.
-Lemma reg_db_norm a : In a reg_db -> exists n al b, a = new_ads n al b.
-Proof.
-  unfold reg_db. intros Ha. apply in_map_iff in Ha. destruct Ha as ([[n rows] b] & <- & _). now exists n, (db_group rows), b.
-Qed.
-Lemma reg_alias_lower a al : In a reg_db -> In al (a_alias a) -> lower al = al.
-Proof. intros Ha Hal. destruct (reg_db_norm a Ha) as (n & x & b & ->). now apply norm_alias_lower in Hal. Qed.
-
-(* bound: the 176 adsorbates and the 818 alias strings of THIS tree *)
-Lemma alias_resolves_partial_lem : forall a al s, In a reg_db -> In al (a_alias a) -> al <> the_collision ->
-  lower s = al -> find reg_db s = Some a /\ set_adsorbate reg_db s = a.
-Proof.
-  pose proof resolves_chk_true as H.
-  intros a al s Ha Hal Hne Hs. unfold resolves_chk in H. rewrite forallb_forall in H. specialize (H a Ha).
-  rewrite forallb_forall in H. specialize (H al Hal). apply orb_true_iff in H. destruct H as [H|H].
-  - apply String.eqb_eq in H. contradiction.
-  - assert (E : find reg_db s = Some a).
-    { rewrite find_lower, Hs. destruct (find reg_db al) as [b|]; [|discriminate]. now rewrite (ads_eqb_eq _ _ H). }
-    split; [assumption|]. unfold set_adsorbate. now rewrite E.
-Qed.
-Lemma name_resolves_partial_lem : forall a s, In a reg_db -> a_name a <> the_collision -> lower s = lower (a_name a) ->
-  find reg_db s = Some a.
-Proof.
-  intros a s Ha Hne Hs.
-  assert (Hin : In (lower (a_name a)) (a_alias a)).
-  { destruct (reg_db_norm a Ha) as (n & x & b & ->). simpl. apply norm_alias_has_name. }
-  assert (Hl : lower (a_name a) <> the_collision).
-  { pose proof name_lower_chk_true as Hc.
-    rewrite forallb_forall in Hc. specialize (Hc a Ha). apply orb_true_iff in Hc. destruct Hc as [Hc|Hc].
-    - apply negb_true_iff, String.eqb_neq in Hc. assumption.
-    - apply String.eqb_eq in Hc. contradiction. }
-  exact (proj1 (alias_resolves_partial_lem a _ s Ha Hin Hl Hs)).
-Qed.
-Lemma alias_unique_partial_lem : forall a b al, In a reg_db -> In b reg_db -> In al (a_alias a) -> In al (a_alias b) ->
-  al <> the_collision -> a = b.
-Proof.
-  pose proof unique_chk_true as H.
-  intros a b al Ha Hb Hal Hbl Hne. unfold unique_chk in H. rewrite forallb_forall in H. specialize (H a Ha).
-  rewrite forallb_forall in H. specialize (H b Hb). rewrite forallb_forall in H. specialize (H al Hal).
-  rewrite !orb_true_iff in H. destruct H as [[H|H]|H].
-  - apply String.eqb_eq in H. contradiction.
-  - apply negb_true_iff in H. apply smem_In in Hbl. congruence.
-  - now apply ads_eqb_eq.
-Qed.
-
 (* the property as stated (every name or alias designates exactly one adsorbate; every adsorbate is found by its name)
    is FALSE on this tree: 'cyclopentane' is an alias of cyclopropane (listed first) and the name of cyclopentane *)
 Definition w_cyclopropane := mkA "cyclopropane" ["cyclopentane"; "cyclopropane"] true.
 Definition w_cyclopentane := mkA "cyclopentane" ["cyclopentane"] true.
-Definition refuted_chk : bool :=
-  existsb (ads_eqb w_cyclopropane) reg_db && existsb (ads_eqb w_cyclopentane) reg_db
-  && match find reg_db "cyclopentane" with Some x => ads_eqb x w_cyclopropane | None => false end
-  && ads_eqb (set_adsorbate reg_db "Cyclopentane") w_cyclopropane.
-Lemma refuted_chk_true : refuted_chk = true. Proof. vm_compute. reflexivity. Qed.
-Lemma existsb_ads_In w L : existsb (ads_eqb w) L = true -> In w L.
-Proof. intro H. apply existsb_exists in H. destruct H as (x & Hx & E). now rewrite (ads_eqb_eq _ _ E). Qed.
+Lemma refuted_chk_true : refuted_chk reg_db w_cyclopropane w_cyclopentane = true. Proof. vm_compute. reflexivity. Qed.
+
+Lemma reg_db_norm : forall a, In a reg_db -> exists n al b, a = new_ads n al b.
+Proof. exact (map_new_ads_norm ads_db). Qed.
+Lemma names_distinct_lem : NoDup (map a_name reg_db).
+Proof. exact (nodupb_NoDup _ nodupb_names_true). Qed.
+Lemma all_ascii_lem : forall a, In a reg_db -> str_ascii7 (a_name a) = true /\ forall al, In al (a_alias a) -> str_ascii7 al = true.
+Proof. exact (gen_all_ascii reg_db ascii_chk_true). Qed.
+Lemma reg_alias_lower : forall a al, In a reg_db -> In al (a_alias a) -> lower al = al.
+Proof. exact (gen_alias_lower reg_db reg_db_norm). Qed.
+(* bound: the 176 adsorbates and the 818 alias strings of THIS tree *)
+Lemma alias_resolves_partial_lem : forall a al s, In a reg_db -> In al (a_alias a) -> al <> the_collision ->
+  lower s = al -> find reg_db s = Some a /\ set_adsorbate reg_db s = a.
+Proof. exact (gen_alias_resolves reg_db resolves_chk_true). Qed.
+Lemma name_resolves_partial_lem : forall a s, In a reg_db -> a_name a <> the_collision -> lower s = lower (a_name a) ->
+  find reg_db s = Some a.
+Proof. exact (gen_name_resolves reg_db reg_db_norm resolves_chk_true name_lower_chk_true). Qed.
+Lemma alias_unique_partial_lem : forall a b al, In a reg_db -> In b reg_db -> In al (a_alias a) -> In al (a_alias b) ->
+  al <> the_collision -> a = b.
+Proof. exact (gen_alias_unique reg_db unique_chk_true). Qed.
 Lemma alias_unique_refuted_lem :
   exists a b, In a reg_db /\ In b reg_db /\ a_name a = "cyclopropane" /\ a_name b = "cyclopentane"
     /\ In "cyclopentane" (a_alias a) /\ In "cyclopentane" (a_alias b)
     /\ find reg_db (a_name b) = Some a /\ set_adsorbate reg_db "Cyclopentane" = a /\ a <> b.
 Proof.
-  pose proof refuted_chk_true as H. unfold refuted_chk in H. rewrite !andb_true_iff in H.
-  destruct H as [[[H1 H2] H3] H4].
+  destruct (gen_refuted reg_db _ _ refuted_chk_true) as (H1 & H2 & H3 & H4).
   exists w_cyclopropane, w_cyclopentane.
-  split; [now apply existsb_ads_In|]. split; [now apply existsb_ads_In|].
+  split; [exact H1|]. split; [exact H2|].
   split; [reflexivity|]. split; [reflexivity|]. split; [now left|]. split; [now left|].
-  split. { simpl a_name. destruct (find reg_db "cyclopentane") as [x|]; [|discriminate]. now rewrite (ads_eqb_eq _ _ H3). }
-  split; [now apply ads_eqb_eq|discriminate].
+  split; [exact H3|]. split; [exact H4|discriminate].
 Qed.
